@@ -810,9 +810,12 @@ def Pair.mappingInjective (x : Pair) : Bool := x.parent.ca.namesOk x.ch
 /-- The child has a repository (`ca_sync_parent` refuses to fetch entitlements without one). -/
 def Pair.childHasRepo (x : Pair) : Bool := x.child.ca.hasRepo
 
-/-- No certificate the child issued to its own children carries a request limit
-(`shrink_overclaiming` / `re_issue` fail with `Error::limit` otherwise and the child cannot
-store a smaller certificate). -/
+/-- No certificate the child issued to its own children carries a request limit.  With a limit
+`shrink_overclaiming` / `re_issue` can fail with `Error::limit` and the child refuses a smaller
+certificate; `handle_cert_response` then drops the class (`Sys.receiveOrDrop`) and the exchange
+still converges - through a new class with a new key (`C02.sync_converges_with_request_limit`).
+That detour (class dropped and created again under a new name) is outside the class-by-class
+simulation `KeyState.syncStep` the general proof follows, so the hypothesis stays. -/
 def Pair.noRequestLimits (x : Pair) : Bool :=
   x.child.ca.classes.all fun q => (q.2.certs.issued ++ q.2.certs.suspended).all fun e => e.2.limit.isNone
 
